@@ -1,12 +1,16 @@
-"""C08 — simulation-based check (real executor code on the simulated kernel) + monitors."""
+"""C08 — Coq theorems over coq/Model/Pool.v (lists regenerated from the source) + simulation of the real executor code with monitors."""
 from checks import simcommon as S
 
 FAMILIES = ['plain', 'timeout', 'resize', 'saturate']
 PER_FAMILY = (300, 6000)
 
 
+PROOF = S.pool_proof('C08', ['C08_never_more_than_max', 'C08_accepted_submit_fills_the_pool', 'C08_structure'],
+                    "'max_workers tasks do run simultaneously' is observed in the saturate family (the model counts registered workers, not running tasks); max_workers changes by _resize are not modelled")
+
+
 def run(ctx):
-    return S.sim_check(ctx, FAMILIES, FAMILIES, PER_FAMILY, S.SIM_ASSUME)
+    return S.sim_check(ctx, FAMILIES, FAMILIES, PER_FAMILY, S.SIM_ASSUME, proof=PROOF)
 
 
 def replay(ctx, path):
